@@ -19,6 +19,35 @@ type KindFn func(in Sx) Sx
 
 var kinds = map[uint64]KindFn{}
 
+// noteCase records the case about to run in $VERIF_CUR (overwritten in place), so that when the
+// implementation takes the whole process down (stack overflow, fatal error, hang killed by the
+// caller) the check still knows the failing input.
+var curFile *os.File
+
+func noteCase(kind uint64, in Sx) {
+	if curFile == nil {
+		return
+	}
+	b := []byte(fmt.Sprintf("%x\t%s\n", kind, in.String()))
+	curFile.WriteAt(b, 0)
+	curFile.Truncate(int64(len(b)))
+}
+
+func wrapKinds() {
+	if p := os.Getenv("VERIF_CUR"); p != "" {
+		if f, err := os.OpenFile(p, os.O_RDWR|os.O_CREATE|os.O_TRUNC, 0644); err == nil {
+			curFile = f
+		}
+	}
+	if curFile == nil {
+		return
+	}
+	for k, fn := range kinds {
+		k, fn := k, fn
+		kinds[k] = func(in Sx) Sx { noteCase(k, in); return fn(in) }
+	}
+}
+
 // PropGen generates the cases of one property.
 type PropGen func(g *Gen)
 
@@ -72,6 +101,9 @@ func main() {
 	if len(os.Args) < 2 {
 		fmt.Fprintln(os.Stderr, "usage: vh gen|run|corpus|internal ...")
 		os.Exit(2)
+	}
+	if os.Args[1] != "internal" {
+		wrapKinds()
 	}
 	switch os.Args[1] {
 	case "gen":
